@@ -964,22 +964,22 @@ struct json_object *json_tokener_parse_ex(struct json_tokener *tok, const char *
 				/* We don't save all state from the previous incremental parse
 				   so we need to re-generate it based on the saved string so far.
 				 */
+				char *last_saved_char = &tok->pb->buf[printbuf_length(tok->pb) - 1];
 				char *e_loc = strchr(tok->pb->buf, 'e');
 				if (!e_loc)
 					e_loc = strchr(tok->pb->buf, 'E');
+				/* A sign can only follow the "e" or the "." that was saved last,
+				   exactly as when the number is seen in one piece */
+				neg_sign_ok = 0;
 				if (e_loc)
 				{
-					char *last_saved_char =
-					    &tok->pb->buf[printbuf_length(tok->pb) - 1];
 					is_exponent = 1;
+					if (e_loc == last_saved_char)
+						pos_sign_ok = neg_sign_ok = 1;
+				}
+				else if (*last_saved_char == '.')
+				{
 					pos_sign_ok = neg_sign_ok = 1;
-					/* If the "e" isn't at the end, we can't start with a '-' */
-					if (e_loc != last_saved_char)
-					{
-						neg_sign_ok = 0;
-						pos_sign_ok = 0;
-					}
-					// else leave it set to 1, i.e. start of the new input
 				}
 			}
 
